@@ -65,9 +65,9 @@ ASSUMPTIONS = [
 TIME_CAP = {"quick": 900, "thorough": 3000}
 
 # argument alphabet: [] = no argument
-ARGS = [[], ["a"], ["-"], ["☘"], ["a b"], ["X"], [5], ["a.b"]]
+ARGS = [[], ["a"], ["-"], ["☘"], ["a b"], ["X"], [5], ["a.b"], ["\ufb01x"], ["\uff41"]]     # the last two: identifier characters that are not NFKC-normal
 DOTTED = 7
-MAIN_ARGS = [0, 1, 2, 3, 4, 5, 6]
+MAIN_ARGS = [0, 1, 2, 3, 4, 5, 6, 8, 9]
 
 # (mode, T, c, max bound or None, argument indices)
 PLAN = {
